@@ -8,7 +8,7 @@ import re
 from ..cfg import build_cfg, calls_in, node_calls
 from ..core import Ctx, property_info, rule, share
 from ..model import AnalysisError, FuncInfo, const_str, walk_no_nested
-from ..q import Dispatch, L, call_name_of, control_deps, dep_texts, expand, family, raw_forms, subject, dict_literals, flow_conditions, flows, A, asrc, enum_members, is_self_attr, kwarg, stores, unparse
+from ..q import Dispatch, cmp_atom, node_containing, reach_table, L, call_name_of, control_deps, dep_texts, expand, family, raw_forms, subject, dict_literals, flow_conditions, flows, A, asrc, enum_members, is_self_attr, kwarg, stores, unparse
 from .c12 import renumbering_is_last
 
 FIL = "xsdata.formats.dataclass.filters:Filters"
@@ -150,9 +150,9 @@ def restriction_vocabulary(ctx: Ctx) -> None:
     d = Dispatch(at.node, is_subject=subject(at.node, "self.use"))
     table = {}
     for key in ("UseType.REQUIRED", "UseType.PROHIBITED", None):
-        occ = [x for x in dict_literals(d.under(key)) if "min_occurs" in x]
+        occ = [x for x in d.dicts_under(at, key) if "min_occurs" in x]
         table[key] = (occ[0]["min_occurs"], occ[0]["max_occurs"]) if len(occ) == 1 and "max_occurs" in occ[0] else None
-    ok = table == {"UseType.REQUIRED": ("1", "1"), "UseType.PROHIBITED": ("0", "0"), None: ("0", "1")}
+    ok = table == {"UseType.REQUIRED": ({"1"}, {"1"}), "UseType.PROHIBITED": ({"0"}, {"0"}), None: ({"0"}, {"1"})}
     ctx.ob("xs:attribute use -> occurrences: required (1,1), prohibited (0,0), optional (0,1)", ok, at=at, construct="attribute use table", msg="attribute occurrence table changed")
 
 
@@ -209,18 +209,22 @@ def pipeline_typestate(ctx: Ctx) -> None:
     finds = sum(1 for fi in ctx.repo.funcs_in("xsdata.codegen.handlers", "xsdata.codegen.mixins") for c in calls_in(fi.node)
                 if isinstance(c.func, ast.Attribute) and c.func.attr in ("find", "find_inner") and unparse(c.func.value).endswith("container"))
     ctx.ob(f"handlers look classes up through container.find / find_inner ({finds} sites)", finds >= 6, at=ctx.repo.func("xsdata.codegen.container:ClassContainer.find"), construct="find sites", msg="lookup discipline vanished")
-    behind = ("_.status<self.step", "self.step>_.status")
-    cf = ctx.repo.func("xsdata.codegen.container:ClassContainer.find")
-    g = build_cfg(cf.node)
-    pcs = [n for n in g.stmts() if any(call_name_of(c) == "process_class" for c in node_calls(n))]
-    again = [n for n in g.stmts() if any(unparse(c.func) == "self.find" for c in node_calls(n))]
-    ok = bool(pcs) and all(dep_texts(cf, n, True) & set(behind) for n in pcs) and any(a.id in g.reachable([p.id]) for a in again for p in pcs)
-    ctx.ob("container.find processes a dependency whose status is behind the current step before returning it (and looks it up again)", ok, at=cf, construct="find processes",
-           msg="find returns unprocessed classes")
-    ci = ctx.repo.func("xsdata.codegen.container:ClassContainer.find_inner")
-    g = build_cfg(ci.node)
-    pcs = [n for n in g.stmts() if any(call_name_of(c) == "process_class" for c in node_calls(n))]
-    ctx.ob("container.find_inner does the same for inner classes", bool(pcs) and all(dep_texts(ci, n, True) & set(behind) for n in pcs), at=ci, construct="find_inner processes", msg="inner classes returned unprocessed")
+    behind = cmp_atom("_.status", "<", "self.step")
+    for fname, what, msg in (("find", "container.find processes a dependency whose status is behind the current step before returning it", "find returns unprocessed classes"),
+                             ("find_inner", "container.find_inner does the same for inner classes", "inner classes returned unprocessed")):
+        cf = ctx.repo.func(f"xsdata.codegen.container:ClassContainer.{fname}")
+        pcs = [c for c in calls_in(cf.node) if call_name_of(c) == "process_class"]
+        ctx.ob(f"{what} (process_class is called)", bool(pcs), at=cf, construct=f"{fname} processes", msg=msg)
+        for c in pcs:
+            tab = reach_table(cf, c, [behind])
+            if tab is not None:
+                ctx.ob(what, tab == {(True,): True, (False,): False}, at=cf, node=c, construct=f"{fname} processes when behind", msg=f"{msg}: process_class runs under {tab}")
+        if fname == "find":
+            g = build_cfg(cf.node)
+            again = [n for n in g.stmts() if any(unparse(c.func) == "self.find" for c in node_calls(n))]
+            pn = [node_containing(g, c) for c in pcs]
+            ctx.ob("container.find looks the class up again after processing it (the class list may have changed)", any(p is not None and a.id in g.reachable([p.id]) for a in again for p in pn), at=cf,
+                   construct="find again", msg="find returns a stale row after processing")
     pc = ctx.repo.func("xsdata.codegen.container:ClassContainer.process_class")
     g = build_cfg(pc.node)
     status_stores = [(g.node_of(st), {A(x) for x in raw_forms(pc, st, v)}) for st, tgt, v in stores(pc.node) if isinstance(tgt, ast.Attribute) and tgt.attr == "status" and v is not None]
@@ -232,7 +236,11 @@ def pipeline_typestate(ctx: Ctx) -> None:
         isinstance(x, ast.Subscript) and unparse(x.value) == "self.processors" and unparse(x.slice) == "step" for x in walk_no_nested(pc.node))
     ok = len(start) == 1 and len(done) == 1 and bool(procs) and bool(inner) and uses_table \
         and all(g.must_pass(g.entry, p.id, [start[0].id]) for p in procs + inner) and all(done[0].id in g.reachable([p.id]) and p.id not in g.reachable([done[0].id]) for p in procs + inner) \
-        and all(any(t in ("_.status<_", "_>_.status") for t in dep_texts(pc, n, True)) for n in inner) and g.must_pass(g.entry, g.exit, [done[0].id], normal_only=True)
+        and g.must_pass(g.entry, g.exit, [done[0].id], normal_only=True)
+    for n_ in inner:
+        tab = reach_table(pc, n_, [cmp_atom("_.status", "<", "_")])
+        if tab is not None:
+            ok = ok and tab == {(True,): True, (False,): False}
     ctx.ob("process_class marks the class in-progress, runs the step's processors, recurses into inner classes that are behind, then marks it done", ok, at=pc, construct="process_class", msg="status protocol changed")
     # every exported handler is instantiated exactly once in the container
     hm = ctx.repo.module("xsdata.codegen.handlers")
@@ -243,7 +251,7 @@ def pipeline_typestate(ctx: Ctx) -> None:
     # a handler is "instantiated" where its class is referenced in the container module: called directly, or listed in a collection of
     # classes that is instantiated in a loop / comprehension.  Copies that the helper-inlining view put into callers are not counted twice.
     for node in ast.walk(cm.tree):
-        if hasattr(node, "_xsa_origin"):
+        if getattr(node, "_xsa_origin", None) in ctx.repo.functions:  # the copy of a helper that is still in the model
             continue
         refs = []
         if isinstance(node, ast.Call) and isinstance(node.func, ast.Name):
